@@ -213,6 +213,9 @@ func (g *exprGen) indexFor(cur interface{}) int {
 	}
 	// boundary and out-of-range values
 	c := []int{0, -1, l, -l - 1, l + 1, 1, -l}
+	if g.pct(12, "extremeIdx") {
+		c = []int{9223372036854775807, -9223372036854775808, -9223372036854775807, 4294967296, -4294967297, 2147483648}
+	}
 	return c[g.n(len(c), "edgeIdx")]
 }
 
